@@ -143,6 +143,9 @@ func cmdPerms(args []string) int {
 	stats := map[string]int{}
 	var samples []string
 	var tables, kcases []string
+	type kgroup struct{ tables, cases []string }
+	var groups []*kgroup
+	const cfgPerFile = 40
 	idx := map[string]string{}
 	distinct := map[string]bool{}
 	id := 0
@@ -176,8 +179,13 @@ func cmdPerms(args []string) int {
 			continue
 		}
 		stats["config.accepted"]++
-		tables = append(tables, pc.coq())
-		ti := len(tables) - 1
+		if len(groups) == 0 || len(groups[len(groups)-1].tables) >= cfgPerFile {
+			groups = append(groups, &kgroup{})
+		}
+		grp := groups[len(groups)-1]
+		grp.tables = append(grp.tables, pc.coq())
+		tables = append(tables, "")
+		ti := len(grp.tables) - 1
 		if len(samples) < 3 {
 			samples = append(samples, pc.text())
 		}
@@ -215,7 +223,8 @@ func cmdPerms(args []string) int {
 				monFail = append(monFail, fmt.Sprintf("permissions {%s}: Check(client=%q, %q, %q) = %v, but the first deciding item of the first matching entries says %v", pc.text(), client, path, op, got, want))
 			}
 			id++
-			kcases = append(kcases, fmt.Sprintf(" KC %s %d %s %s %s %s", coqN(id), ti, coqStr(client), coqStr(path), coqStr(op), coqBool(got)))
+			kcases = append(kcases, "")
+			grp.cases = append(grp.cases, fmt.Sprintf(" KC %s %d %s %s %s %s", coqN(id), ti, coqStr(client), coqStr(path), coqStr(op), coqBool(got)))
 			idx[fmt.Sprint(id)] = fmt.Sprintf("permissions {%s} Check(client=%q, %q, %q) = %v", pc.text(), client, path, op, got)
 			distinct[fmt.Sprintf("%d|%s|%s|%s", ti, client, path, op)] = true
 			if got {
@@ -232,16 +241,20 @@ func cmdPerms(args []string) int {
 	if nil != os.MkdirAll(cf.out, 0o755) {
 		return 2
 	}
-	var b strings.Builder
-	b.WriteString("From DV Require Import Corr.CheckChecker.\nLocal Open Scope string_scope.\n")
-	fmt.Fprintf(&b, "Definition grouped : bool := %s.\n", coqBool(cf.g63))
-	fmt.Fprintf(&b, "Definition tables : list ptable := [\n%s].\n", strings.Join(tables, ";\n"))
-	fmt.Fprintf(&b, "Definition cases : list kcase := [\n%s].\n", strings.Join(kcases, ";\n"))
-	b.WriteString("Definition M := Eval vm_compute in checker_mismatches grouped tables cases.\nPrint M.\n")
-	if err := os.WriteFile(filepath.Join(cf.out, "cases_C07_0.v"), []byte(b.String()), 0o644); err != nil {
-		return 2
+	var files []string
+	for gi, grp := range groups {
+		var b strings.Builder
+		b.WriteString("From DV Require Import Corr.CheckChecker.\nLocal Open Scope string_scope.\n")
+		fmt.Fprintf(&b, "Definition grouped : bool := %s.\n", coqBool(cf.g63))
+		fmt.Fprintf(&b, "Definition tables : list ptable := [\n%s].\n", strings.Join(grp.tables, ";\n"))
+		fmt.Fprintf(&b, "Definition cases : list kcase := [\n%s].\n", strings.Join(grp.cases, ";\n"))
+		b.WriteString("Definition M := Eval vm_compute in checker_mismatches grouped tables cases.\nPrint M.\n")
+		name := fmt.Sprintf("cases_C07_%d.v", gi)
+		if err := os.WriteFile(filepath.Join(cf.out, name), []byte(b.String()), 0o644); err != nil {
+			return 2
+		}
+		files = append(files, name)
 	}
-	files := []string{"cases_C07_0.v"}
 
 	// (B) service level
 	sf, sfiles, sn, err := permServices(ctx, cf, rng, idx, stats)
